@@ -65,7 +65,7 @@ def jit_model_correspondence(chk, binary, cases):
         if a['status'] != 0 or 'L' not in a:
             continue
         memb = a['L'][0]
-        terms.append('(check_jit %s %s %s %d %d %s)' % (zhex(c.prog), region(memb, c.mem), '[%s]' % '; '.join('(%d, %d)' % (i2, HELPER_CODES[n]) for i2, n in c.helpers),
+        terms.append('(check_jit %s %s %s %d %d %s)' % (zhex(c.prog), region(memb, c.mem), '[%s]' % '; '.join('(%d, %d)' % (i2, HELPER_CODES[n]) for i2, n in reversed(c.helpers)),
                                                          c.budget, a['val'], zhex(a['mem'])))
         idx.append(i)
     bad, errors = vlib.coq_eval('C03jit', JIT_HEADER, terms, '(fun c => c)', shard_size=120)
@@ -105,7 +105,7 @@ def cl_model_correspondence(chk, binary, cases):
             continue
         mb = c.mbuff if kind == 'mbuff' else b''
         terms.append('(check_cl %s %s %s %s %d %d %d %s %s)' % (
-            zhex(c.prog), region(mbuffb, mb), region(memb, c.mem), '[%s]' % '; '.join('(%d, %d)' % (i2, HELPER_CODES[n]) for i2, n in c.helpers),
+            zhex(c.prog), region(mbuffb, mb), region(memb, c.mem), '[%s]' % '; '.join('(%d, %d)' % (i2, HELPER_CODES[n]) for i2, n in reversed(c.helpers)),
             c.budget, st, v, zhex(a['mbuff'] if st == 0 and kind == 'mbuff' else mb if st else b''), zhex(a['mem'] if st == 0 else c.mem)))
         idx.append(i)
     bad, errors = vlib.coq_eval('C04cl', CL_HEADER, terms, '(fun c => c)', shard_size=120)
